@@ -1650,3 +1650,35 @@ Proof. vm_compute. reflexivity. Qed.
 Lemma float53_agrees_below_2_53 :
   float53_agrees_on (zrange (2 ^ 53 - 40) 41 ++ zrange (- (2 ^ 53)) 41) [1; 3; 10; 1048576] = true.
 Proof. vm_compute. reflexivity. Qed.
+
+(* ---- unspecified-method cases vs the documented methods of the resolved path item ---- *)
+Lemma undocumented_spec d m : In m (undocumented d) <-> In m all_methods /\ ~ In m d.
+Proof.
+  unfold undocumented. rewrite filter_In. split; intros [Ha Hb]; split; auto.
+  - intros Hin. apply negb_true_iff in Hb.
+    assert (existsb (N.eqb m) d = true) as E by (apply existsb_exists; exists m; split; [assumption|apply N.eqb_refl]).
+    congruence.
+  - apply negb_true_iff. destruct (existsb (N.eqb m) d) eqn:E; [|reflexivity].
+    apply existsb_exists in E. destruct E as (x & Hx & Hxe). apply N.eqb_eq in Hxe. subst x. contradiction.
+Qed.
+
+Lemma unspecified_method_case_undocumented T p c :
+  In c (method_cases T (unspecified_methods p)) ->
+  exists m, c_kind c = KMethod m /\ c_mode c = Neg /\ In m all_methods /\ ~ In m (resolved_methods p).
+Proof.
+  intros Hin. apply in_map_iff in Hin. destruct Hin as (m & Hc & Hm). subst c.
+  apply undocumented_spec in Hm. destruct Hm. exists m. repeat split; assumption.
+Qed.
+
+Lemma unspecified_method_case_complete T p m :
+  In m all_methods -> ~ In m (resolved_methods p) ->
+  In (mk_case (KMethod m) Neg (unmodified T)) (method_cases T (unspecified_methods p)).
+Proof.
+  intros Ha Hn. apply in_map_iff. exists m. split; [reflexivity|]. apply undocumented_spec. split; assumption.
+Qed.
+
+Lemma unspecified_method_raw_refuted :
+  In 1%N (resolved_methods (PRef [1; 5; 0]%N)) /\ In 1%N (unspecified_methods_raw (PRef [1; 5; 0]%N))
+  /\ unspecified_methods (PRef [1; 5; 0]%N) = [2; 3; 4; 6]%N
+  /\ unspecified_methods_raw (PInline [1; 5; 0]%N) = unspecified_methods (PInline [1; 5; 0]%N).
+Proof. repeat split; vm_compute; auto. Qed.
